@@ -49,6 +49,10 @@ CLAIMED = {
          "model_checking: scanner = JSON grammar for all string contents over 6 character classes up to length 4 (quick) or 6-7 (thorough) x 5 object shapes x 5 tails (the as-written scanner is a required negative test: TLC must find the escaped-quote counter-example); round-trip laws (Read(Write(r)) = r, Write is a fixed point, clamp 93, shifts, folding) for 6-11 lengths x score patterns x {33,64}^2 x 11 annotation shapes; all cases replayed on the real code.",
          "Unicode, float and big-int value fidelity and the binaries are covered by TLC-validated traces (600-10 000 events plus 108-324 pipelines per run), not enumerated; object-first title lines only. A command failure that does not reproduce on an immediate re-run is noted in the evidence, not alarmed.",
          "DESIGN.md 5 C02"),
+ "C10": ("TLC model checking of Apat.tla/ApatMC.tla (all small patterns x sequences x budgets x modes x windows; reference definitions vs scanning formulations, reverse-complement theorem, window lemmas as invariants), replay of every exported case on the cgo matcher with recycled sequence objects, and TLC validation (ApatTrace.tla) of recorded scenarios up to 64-symbol patterns and 10^4-symbol sequences, including the Go re-alignment",
+         "Every (pattern, sequence, budget, mode, window) of four bounded families is enumerated by TLC, which checks the specification's own theorems and exports the hit sets. The real FindAllIndex / IsMatching / ReverseComplement must report exactly those. FilterBestMatch, AllMatches, BestMatch and LocatePattern answers, and large random scenarios, are accepted or rejected by TLC re-evaluating the specification on each logged event. Model checking fits because the failure modes are positional and enumerable.",
+         "Trusted: TLC, the Go event encoder, SequencesExt!FoldLeft. Bounded: |P| <= 4, |S| <= 6 exhaustively; random patterns <= 64, sequences <= 10^4 (<= 12 000 DP cells in indel mode). Not asserted: '#' with indels, re-alignment of non-letter patterns or sequences with ambiguity codes, circular sequences.",
+         "DESIGN.md 5 C10"),
 }
 
 NOT_YET = "check not built yet in this round (planned, see DESIGN.md 10); not claimed"
